@@ -120,8 +120,12 @@ EXPORT errno_t _asctime_s_chk(char *dest, rsize_t dmax, const struct tm *tm,
 
     CHK_DEST_NULL("asctime_s")
     if (unlikely(dmax < 26)) {
-        invoke_safe_str_constraint_handler("asctime_s: dmax is too small", NULL,
-                                           ESLEMIN);
+        if (dmax) {
+            handle_error(dest, dmax, "asctime_s: dmax is too small", ESLEMIN);
+        } else {
+            invoke_safe_str_constraint_handler("asctime_s: dmax is too small",
+                                               NULL, ESLEMIN);
+        }
         return ESLEMIN;
     }
     if (destbos == BOS_UNKNOWN) {
@@ -137,8 +141,7 @@ EXPORT errno_t _asctime_s_chk(char *dest, rsize_t dmax, const struct tm *tm,
     }
 
     if (unlikely(tm == NULL)) {
-        invoke_safe_str_constraint_handler("asctime_s: tm is null", NULL,
-                                           ESNULLP);
+        handle_error(dest, dmax, "asctime_s: tm is null", ESNULLP);
         return ESNULLP;
     }
 
@@ -149,8 +152,8 @@ EXPORT errno_t _asctime_s_chk(char *dest, rsize_t dmax, const struct tm *tm,
         || tm->tm_gmtoff < -1036800 /* 12*86400 */
 #endif
     ) {
-        invoke_safe_str_constraint_handler(
-            "asctime_s: a tm member is too small", NULL, ESLEMIN);
+        handle_error(dest, dmax, "asctime_s: a tm member is too small",
+                     ESLEMIN);
         return ESLEMIN;
     }
 
@@ -162,8 +165,8 @@ EXPORT errno_t _asctime_s_chk(char *dest, rsize_t dmax, const struct tm *tm,
 #endif
     ) {
         /* does EOVERFLOW in asctime() */
-        invoke_safe_str_constraint_handler(
-            "asctime_s: a tm member is too large", NULL, ESLEMAX);
+        handle_error(dest, dmax, "asctime_s: a tm member is too large",
+                     ESLEMAX);
         return ESLEMAX;
     }
 
